@@ -1073,9 +1073,9 @@ S_CONT = st.fixed_dictionaries({
 
 def tests(tier):
     return [
-        Test("cvc", S_CVC, run_cvc, {"quick": 300, "thorough": 6000}, CFG),
-        Test("cvc_content", S_CONTENT, run_content, {"quick": 300, "thorough": 6000}, CFG),
-        Test("sm", sm_strategy(tier), run_sm, {"quick": 1500, "thorough": 30000}, CFG),
-        Test("sm_limit", S_SM_LIMIT, run_sm_limit, {"quick": 24, "thorough": 320}, CFG, shards=8),
-        Test("cont", S_CONT, run_cont, {"quick": 48, "thorough": 640}, CFG, shards=8),
+        Test("cvc", S_CVC, run_cvc, {"quick": 800, "thorough": 8000}, CFG),
+        Test("cvc_content", S_CONTENT, run_content, {"quick": 800, "thorough": 8000}, CFG),
+        Test("sm", sm_strategy(tier), run_sm, {"quick": 4000, "thorough": 40000}, CFG),
+        Test("sm_limit", S_SM_LIMIT, run_sm_limit, {"quick": 48, "thorough": 320}, CFG, shards=8),
+        Test("cont", S_CONT, run_cont, {"quick": 96, "thorough": 640}, CFG, shards=8),
     ]
